@@ -49,7 +49,9 @@ def read_float(x, f32=False):
     ax = abs(x)
     sgn = 1 if x > 0 else -1
     fr = Fraction(ax).limit_denominator(1000)
-    if float(fr) == ax or (f32 and float(np.float32(float(fr))) == ax):
+    # within 4 ulp of the rational (values produced by linspace / a few float operations on such rationals)
+    ulp = (float(np.spacing(np.float32(ax))) if f32 else math.ulp(ax))
+    if abs(float(fr) - ax) <= 4 * ulp:
         if fr.denominator not in (1, 2, 4, 8, 16, 32, 64, 128, 256, 512):
             READ_RULE_LOG[x] = str(sgn * fr)
         return sgn * fr
@@ -79,6 +81,7 @@ class _Hooks:
     decide_bool = None  # callable(Sym bool) -> bool
     decide_int = None  # callable(Sym real) -> int
     prune = None  # callable(cond Sym) -> True/False/None  (implied / refuted / unknown)
+    floor_value = None  # callable(term Sym) -> int | None (value of floor(term) implied by the assumptions)
 
 
 HOOKS = _Hooks()
@@ -183,6 +186,15 @@ class Sym:
             return scale(a, b.args[0])
         ca, a = _split_coeff(a)
         cb, b = _split_coeff(b)
+        # the symbolic constant pi distributes over linear combinations (keeps k*pi/2 shifts visible)
+        if a is PI and b.op == "lin":
+            a, b = b, a
+        if b is PI and a.op == "lin":
+            d, c = a.lin()
+            acc = scale(PI, c)
+            for at, k in d.items():
+                acc = acc + scale(at * PI, k)
+            return scale(acc, ca * cb)
         if a.hid > b.hid:
             a, b = b, a
         return scale(Sym("mul", (a, b), REAL), ca * cb)
@@ -561,6 +573,10 @@ def floor(a):
         return const(Fraction(math.floor(a.args[0])))
     if a.op == "floor":
         return a
+    if HOOKS.floor_value is not None:
+        n = HOOKS.floor_value(a)
+        if n is not None:
+            return const(Fraction(n))
     return Sym("floor", (a,), REAL)
 
 
@@ -587,6 +603,12 @@ def app(fname, a):
         return sqrt(a)
     if a.op == "c" and fname in _LIBM:
         return lift(_LIBM[fname](float(a.args[0])))
+    dd, cc = a.lin()
+    if fname in ("sin", "cos") and cc == 0 and len(dd) == 1 and PI in dd:
+        q = dd[PI] * 2  # argument = q * pi/2
+        if q.denominator == 1:
+            k = int(q) % 4
+            return const({"cos": (1, 0, -1, 0), "sin": (0, 1, 0, -1)}[fname][k])
     return Sym("app", (fname, a), REAL)
 
 
